@@ -91,6 +91,7 @@ type GhostUpdate struct {
 	E     Expr
 	Text  string
 	Optional bool // the hook may match no call
+	Mark bool // markcall: E is an attr mark executed at the call
 	Assume bool // assumecall: E is assumed after the call instead of assigned
 }
 
@@ -129,7 +130,7 @@ var tagRe = regexp.MustCompile(`^\[([A-Za-z0-9_, ]+)(?::([A-Za-z0-9_\-\.]+))?\]\
 var keywords = map[string]bool{
 	"func": true, "props": true, "requires": true, "ensures": true, "modifies": true,
 	"loop": true, "invariant": true, "decreases": true, "inline": true, "trusted": true,
-	"pure": true, "unroll": true, "spec": true, "package": true, "noterm": true, "assert": true, "axiom": true, "lemma": true, "callsite": true, "ghost": true, "onassign": true, "oncall": true, "aftercall": true, "closure": true, "chaninv": true, "assumecall": true, "dyncall": true, "attr": true,
+	"pure": true, "unroll": true, "spec": true, "package": true, "noterm": true, "assert": true, "axiom": true, "lemma": true, "callsite": true, "ghost": true, "onassign": true, "oncall": true, "aftercall": true, "closure": true, "chaninv": true, "assumecall": true, "markcall": true, "dyncall": true, "attr": true,
 }
 
 // LoadFile parses a contract file. pkgPath is the default package path
@@ -387,6 +388,18 @@ func (cs *Contracts) LoadFile(path string, pkgPath string, external bool) error 
 					return errf("dyncall needs '<name>: modifies nothing'")
 				}
 				cur.DynPure = append(cur.DynPure, strings.TrimSpace(rest[:i]))
+			case "markcall":
+				// markcall <callee>: [cond ==>] [!]attr(name, x) -- a ghost attribute mark made when the function calls
+				// <callee> ("go" for a goroutine spawn); the mark is part of this function's ghost effect
+				i := strings.Index(rest, ":")
+				if i < 0 {
+					return errf("markcall needs '<callee>: attr(name, x)'")
+				}
+				e, err := ParseExpr(strings.TrimSpace(rest[i+1:]))
+				if err != nil {
+					return errf("%v", err)
+				}
+				cur.GhostUps = append(cur.GhostUps, &GhostUpdate{OnCall: strings.TrimSuffix(strings.TrimSpace(rest[:i]), "?"), Text: rest, Mark: true, Optional: strings.HasSuffix(strings.TrimSpace(rest[:i]), "?"), E: e})
 			case "assumecall":
 				// assumecall <callee>: <expr over argN / retN>  -- an assumption about what a dependency
 				// returns, stated where it is used; listed with the trusted base in the evidence
